@@ -42,6 +42,11 @@ RULE = ("grammar-generated BED/BED6/narrowPeak/VCF/VCF-with-genotypes/VCF-with-d
         "'filter every file of a set and concatenate': three files of unequal size, a selection of each with every pattern of selections "
         "WITHOUT rows (all-False mask, empty slice, empty int list) among selections with rows, one n-ary np.concatenate of 3-4 operands "
         "in any order, written / reversed / replaced; "
+        "index KINDS (round 8): a Python range as row index (counting down to row 0, from-the-end bounds, past the end -> IndexError; 8% "
+        "of the random indexes + fixed programs on every format), pandas Series (ints and mask), int16 / uint8 / uint64 arrays; a "
+        "table - modified or not - is MATERIALISED (iterated, tolist, todict, toiter, topandas, get_data_object) before it is written "
+        "(35% of the replaced writes, `how` on `get` nodes, fixed cases per replaceable field); two reading PROTOCOLS on one reader: "
+        "read_chunk i times, then read() for the remainder (`rest` leaves: written, reversed, concatenated with a chunk, replaced); "
         "the documented switches of laziness (config.LAZY assigned / ConfigContext x lazy= keyword x default; the keyword wins): every "
         "combination asking for lazy reading gives a lazy object and the pass-through (15% of the random cases + a fixed family); "
         "observable = bytes written by bnp.open(out,'w').write(result). Non-trivial = program has >= 2 steps and the selection "
@@ -60,6 +65,9 @@ ASSUMPTIONS = [
     "the records the reader put into it; attribute assignment on a table is specified as `replace` on every later use of that "
     "same object and as nothing on any other object (implementation vs oracle only: the overlay is C05's model)",
     "replacement values are int / string / strand columns (float and quality formatting are C03/C18)",
+    "index KINDS: a Python range / pandas Series / integer arrays of other widths select the rows the list of their members selects; "
+    "npstructures' ragged arrays (text columns of eager tables and cached text columns of lazy ones) refuse range and Series with "
+    "NotImplementedError - such a refusal is accepted, a selection of other rows is not",
     "BAM: records produced by an independent spec-level encoder in this module; BamBuffer has no concatenate and does not "
     "support modified writes, so BAM programs are selections only",
 ]
@@ -320,10 +328,23 @@ def bam_record(rng):
 # ------------------------------------------------------------------ cases
 
 def _rand_idx(rng, n):
+    if rng.random() < 0.08:
+        return _rand_range(rng, n)
     ix = _rand_idx0(rng, n)
-    if "slice" not in ix and rng.random() < 0.35:
-        ix["as"] = rng.choice(["list", "i32", "scalars"])
+    if "slice" not in ix and rng.random() < 0.45:
+        # the KIND of object the caller passes: the rows selected must not depend on it
+        ix["as"] = rng.choice(["list", "i32", "scalars", "series", "i16", "u64", "u8"])
     return ix
+
+
+def _rand_range(rng, n):
+    """a Python `range` as row index = the list of its members (NOT the slice with the same bounds: negative bounds count from the
+    end member by member, a member outside the table is an IndexError)"""
+    pats = [[n - 1, -1, -1], [-min(n, 3), 0, 1], [0, n, 1], [0, n, 2], [n - 1, -1, -2], [-1, -n - 1, -1], [-n, 0, 2],
+            [rng.randint(-n, n), rng.randint(-n - 1, n), rng.choice([1, 2, -1, -2])]]
+    if rng.random() < 0.08:
+        pats = [[0, n + 2, 1], [-n - 1, 0, 1], [n, -1, -1]]
+    return {"range": rng.choice(pats)}
 
 
 def _rand_idx0(rng, n):
@@ -349,6 +370,8 @@ def _spec_len(prog, lens):
     if "t" in prog:
         if "part" in prog:
             return prog["plens"][prog["part"]]
+        if "rest" in prog:
+            return sum(prog["plens"][prog["rest"]:])
         return lens[prog["t"]]
     if "cat" in prog:
         ls = [_spec_len(p, lens) for p in prog["cat"]]
@@ -388,7 +411,10 @@ def _rand_prog(rng, lens, depth, fmt):
     if r > 0.94:
         # read (cache) some columns of the lazy table, then go on with the same table
         p = _rand_prog(rng, lens, depth - 1, fmt)
-        return {"get": p, "fs": sorted(rng.sample(_readable(fmt), rng.choice([1, 1, 2])))}
+        g = {"get": p, "fs": sorted(rng.sample(_readable(fmt), rng.choice([1, 1, 2])))}
+        if rng.random() < 0.5:
+            g["how"] = rng.choice(MAT)      # ... or the whole table is materialised (rows / columns / data object)
+        return g
     if r > 0.88:
         # write a child of a (shared) table first, then go on with a program over the same tables
         k = rng.randrange(len(lens))
@@ -481,6 +507,8 @@ def make_case(rng, fmt, depth, replace_p=0.3, eol=None):
     if rep and n and rng.random() < replace_p:
         ks = sorted(rng.sample(sorted(rep), rng.choice([1, 1, 2, min(3, len(rep)), len(rep)])))
         c["repl"] = [[k, rep[k], _new_values(rng, rep[k], n)] for k in ks]
+    if rng.random() < (0.35 if c["repl"] else 0.1):
+        c["mat"] = rng.choice(MAT)
     if not fixed and rng.random() < 0.12:
         c = _nofinal(c)
     if not fixed and rng.random() < 0.15:
@@ -619,6 +647,12 @@ def cases(tier, rng):
             progs = [{"t": 0}, {"sel": {"t": 0}, "ix": {"slice": [None, None, -1]}},
                      {"sel": {"t": 0}, "ix": {"ints": [n0 - 1, 0, 0]}},
                      {"sel": {"sel": {"t": 0}, "ix": {"slice": [None, None, -1]}}, "ix": {"slice": [None, None, 2]}}]
+            # index KINDS: a Python range counting down to row 0 / from-the-end bounds, a pandas Series, unsigned arrays
+            progs += [{"sel": {"t": 0}, "ix": {"range": [n0 - 1, -1, -1]}}, {"sel": {"t": 0}, "ix": {"range": [-min(n0, 2), 0, 1]}},
+                      {"sel": {"sel": {"t": 0}, "ix": {"range": [0, n0, 1]}}, "ix": {"range": [-1, -n0 - 1, -2]}},
+                      {"sel": {"t": 0}, "ix": {"ints": [n0 - 1, 0], "as": "series"}}, {"sel": {"t": 0}, "ix": {"ints": [n0 - 1, 0], "as": "u64"}},
+                      {"sel": {"t": 0}, "ix": {"mask": [i % 2 == 0 for i in range(n0)], "as": "series"}},
+                      {"sel": {"t": 0}, "ix": {"range": [0, n0 + 1, 1]}}]
             if fmt != "bam":
                 progs += [{"cat": [{"sel": {"sel": {"t": 0}, "ix": {"ints": [-1, 0]}}, "ix": {"mask": [False, True]}}, {"t": 0}]},
                           {"sel": {"cat": [{"t": 0}, {"t": 0}]}, "ix": {"slice": [1, None, 2]}},
@@ -629,6 +663,10 @@ def cases(tier, rng):
             for k in rep:
                 yield dict(base, prog={"sel": {"t": 0}, "ix": {"slice": [None, None, -1]}},
                            repl=[[k, rep[k], _new_values(rng, rep[k], n0)]])
+                # the modified table is MATERIALISED (iterated, tolist, todict, topandas, data object) before it is written
+                yield dict(base, prog={"t": 0}, repl=[[k, rep[k], _new_values(rng, rep[k], n0)]], mat=rng.choice(MAT))
+                yield _set_op(dict(base, prog={"get": {"rep": {"sel": {"t": 0}, "ix": {"slice": [None, None, -1]}},
+                                                       "kw": [[k, rep[k], _new_values(rng, rep[k], n0)]]}, "fs": [], "how": rng.choice(MAT)}))
             # files without a terminating newline (LF and CRLF): whole table, selections containing the last record, replaced writes
             variants = [_nofinal(base)]
             if fmt == "sam":
@@ -792,6 +830,12 @@ def cases(tier, rng):
                              {"cat": [P(i) for i in range(len(plens))]}, P(1), {"sel": P(last), "ix": {"slice": [None, None, -1]}}]
                     for pr in progs:
                         yield _set_op(dict(base, prog=pr))
+                    # two protocols on one reader: read_chunk i times, then read() for the remainder
+                    R = lambda i: {"t": 0, "rest": i, "psize": size, "plens": plens}
+                    for pr in [R(1), R(last), {"sel": R(1), "ix": {"slice": [None, None, -1]}}, {"cat": [P(0), R(1)]},
+                               {"seq": [{"touch": R(1)}, {"sel": R(1), "ix": {"ints": [sum(plens[1:]) - 1, 0]}}]}]:
+                        yield _set_op(dict(base, prog=pr))
+                    yield _set_op(dict(base, prog=R(1), repl=[[k, rep[k], _new_values(rng, rep[k], sum(plens[1:]))]]))
                     pr = {"seq": [S(0), P(1)]}
                     k2 = rng.choice(sorted(rep))
                     yield _set_op(dict(base, prog=pr, repl=[[k2, rep[k2], _new_values(rng, rep[k2], plens[1])]]))
@@ -1046,7 +1090,7 @@ def _py_index(l, ix):
         m = ix["mask"]
         return None if len(m) != n else [x for x, k in zip(l, m) if k]
     out = []
-    for i in ix["ints"]:
+    for i in (list(range(*ix["range"])) if "range" in ix else ix["ints"]):
         if not -n <= i < n:
             return None
         out.append(l[i])
@@ -1058,6 +1102,8 @@ def _spec_eval(p, tabs):
         if "part" in p:
             off = sum(p["plens"][:p["part"]])
             return list(tabs[p["t"]][off:off + p["plens"][p["part"]]])
+        if "rest" in p:     # read_chunk `rest` times, then read(): everything the chunks did not deliver
+            return list(tabs[p["t"]][sum(p["plens"][:p["rest"]]):])
         return list(tabs[p["t"]])
     if "cat" in p:
         ls = [_spec_eval(q, tabs) for q in p["cat"]]
@@ -1218,7 +1264,20 @@ def _parse_written(c, out):
     return rows
 
 
+def _exotic_kind(p):
+    """does the program index with a `range` or a pandas Series (kinds npstructures' ragged arrays refuse with NotImplementedError)"""
+    if isinstance(p, dict):
+        if "ix" in p and ("range" in p["ix"] or p["ix"].get("as") == "series"):
+            return True
+        return any(_exotic_kind(v) for k, v in p.items() if k != "ix")
+    if isinstance(p, list):
+        return any(_exotic_kind(v) for v in p)
+    return False
+
+
 def agree(c, got, exp):
+    if isinstance(got, dict) and got.get("err") == "other:NotImplementedError" and _exotic_kind(c["prog"]):
+        return True     # the index KIND was refused (ragged columns of eager / cached tables): a refusal, not a wrong selection
     if "fields" in exp:
         if not isinstance(got, dict) or "out" not in got:
             return False
@@ -1259,8 +1318,20 @@ def _np_idx(ix):
         return [ix["int"]]          # as an int list (see ASSUMPTIONS)
     if "slice" in ix:
         return slice(*ix["slice"])
+    if "range" in ix:
+        return range(*ix["range"])
     if "mask" in ix:
+        if how == "series" and ix["mask"]:
+            import pandas as pd
+            return pd.Series(list(ix["mask"]), dtype=bool)
         return list(ix["mask"]) if (how == "list" and ix["mask"]) else np.array(ix["mask"], dtype=bool)
+    if how == "series" and ix["ints"]:
+        import pandas as pd
+        return pd.Series(list(ix["ints"]), dtype="int64")
+    if how in ("u64", "u8") and ix["ints"] and all(0 <= i < 200 for i in ix["ints"]):
+        return np.array(ix["ints"], dtype=np.uint64 if how == "u64" else np.uint8)
+    if how == "i16" and ix["ints"]:
+        return np.array(ix["ints"], dtype=np.int16)
     if how == "list" and ix["ints"]:
         return list(ix["ints"])
     if how == "i32":
@@ -1298,6 +1369,15 @@ def _run(p, paths, bt, bnp, scratch):
                     chunks.append(_lazy_checked(ch))
                 _LEAVES[key] = chunks
             return _LEAVES[key][p["part"]]
+        if "rest" in p:
+            # TWO reading protocols on ONE reader: `rest` chunks are taken with read_chunk, the remainder with read()
+            key = (p["t"], "rest", p["psize"], p["rest"])
+            if key not in _LEAVES:
+                f = bnp.open(paths[p["t"]], buffer_type=bt, **_OPEN_KW)
+                taken = [f.read_chunk(min_chunk_size=p["psize"]) for _ in range(p["rest"])]
+                _LEAVES[key] = _lazy_checked(f.read())
+                _LEAVES[key + ("alive",)] = taken
+            return _LEAVES[key]
         key = (p["t"], p.get("chunk"))
         if key not in _LEAVES:
             f = bnp.open(paths[p["t"]], buffer_type=bt, **_OPEN_KW)
@@ -1326,6 +1406,7 @@ def _run(p, paths, bt, bnp, scratch):
         names = FIELD_NAMES[_FMT_OF[id(paths)]]
         for j in p["fs"]:
             getattr(t, names[j])
+        _materialise(t, p.get("how"))
         return t
     if "cat" in p:
         return np.concatenate([_run(q, paths, bt, bnp, scratch) for q in p["cat"]])
@@ -1342,6 +1423,30 @@ def _run(p, paths, bt, bnp, scratch):
         names = FIELD_NAMES[_FMT_OF[id(paths)]]
         return replace(t, **{names[k]: _new_column(kind, vals) for k, kind, vals in p["kw"]})
     return _run(p["sel"], paths, bt, bnp, scratch)[_np_idx(p["ix"])]
+
+
+MAT = ["tolist", "iter", "todict", "toiter", "get_data_object", "topandas"]
+
+
+def _materialise(t, how):
+    """LOOK at the whole table (rows / columns / data object) without changing it; what is written afterwards must not depend on it"""
+    if not how:
+        return
+    try:
+        if how == "iter":
+            for _ in t:
+                pass
+        elif how == "toiter":
+            for _ in t.toiter():
+                pass
+        elif how == "get_data_object":
+            (t.get_data_object() if hasattr(t, "get_data_object") else t.tolist())
+        else:
+            getattr(t, how)()
+    except Exception:
+        # valid text need not parse as the column's type ('1e3' / '.' scores), not every entry type converts to a data frame:
+        # the attempt alone must not change what is written
+        pass
 
 
 def _new_column(kind, vals):
@@ -1389,6 +1494,7 @@ def _impl(c):
             if c["repl"]:
                 names = FIELD_NAMES[c["fmt"]]
                 t = replace(t, **{names[k]: _new_column(kind, vals) for k, kind, vals in c["repl"]})
+            _materialise(t, c.get("mat"))      # the table is looked at (rows, columns, data frame) before it is written
             wbt = bt
             if c.get("wfmt"):
                 out = os.path.join(d, "outw" + WRITERS[c["wfmt"]][0])
@@ -1424,6 +1530,13 @@ def _chunk_parts(c, k, size):
         shutil.rmtree(d, ignore_errors=True)
 
 
+def _model_ix(ix):
+    """the index as the Lean side knows it: a `range` is the integer list of its members, the spelling (`as`) is dropped"""
+    if "range" in ix:
+        return {"ints": list(range(*ix["range"]))}
+    return {k: v for k, v in ix.items() if k != "as"}
+
+
 def model_request(c):
     if c["op"] != "prog":
         return None
@@ -1434,6 +1547,9 @@ def model_request(c):
             if "part" in p:         # one chunk of the file: a table of its own (the records the reader put into that chunk)
                 off = sum(p["plens"][:p["part"]])
                 tabs.append(tabs[p["t"]][off:off + p["plens"][p["part"]]])
+                return {"t": len(tabs) - 1}
+            if "rest" in p:         # the remainder of the file after `rest` chunks: a table of its own
+                tabs.append(tabs[p["t"]][sum(p["plens"][:p["rest"]]):])
                 return {"t": len(tabs) - 1}
             if "chunk" not in p:
                 return {"t": p["t"]}
@@ -1464,7 +1580,7 @@ def model_request(c):
             return tr(p["of"])          # a named table: values are immutable in the model, naming is the identity
         if "seq" in p:
             return {"seq": [tr(q) for q in p["seq"]]}
-        return {"sel": tr(p["sel"]), "ix": p["ix"]}
+        return {"sel": tr(p["sel"]), "ix": _model_ix(p["ix"])}
 
     prog = tr(c["prog"])
     if c["fmt"] == "bam":
@@ -1483,6 +1599,8 @@ def model_request(c):
 def agree_model(c, got, m):
     """the Lean side also reports whether every extractor built from the case's files satisfies the (proved-sound)
     invariant checker `Ext.invB` — the hypothesis of `program_bytes`; it must hold for the correspondence to count"""
+    if isinstance(got, dict) and got.get("err") == "other:NotImplementedError" and _exotic_kind(c["prog"]):
+        return True     # the index KIND was refused (see `agree`): nothing to compare with the model
     if isinstance(m, dict) and "out" in m:
         if m.get("inv") is not True:
             return False
